@@ -353,8 +353,40 @@ def eci_case(draw):
     return {'fn': fn, 'content': enc_content(text), 'kw': kw}
 
 
+@st.composite
+def eci_multi_case(draw):
+    """2-4 byte-mode parts in different encodings, eci mostly on, total length steered to the
+    capacity of a drawn (version, level)."""
+    v = draw(st.sampled_from([1, 1, 2, 2, 3, 4, 5, 7, 9, 10, 12]))
+    lvl = draw(st.sampled_from(['L', 'M', 'Q', 'H']))
+    k = draw(st.integers(2, 4))
+    encs = [draw(st.sampled_from(['iso-8859-5', 'iso-8859-7', 'utf-8', 'cp1252', 'iso-8859-1', 'shift_jis',
+                                  'iso-8859-15', 'cp1251', None])) for _ in range(k)]
+    eci = draw(st.integers(0, 5)) > 0
+    cci = R.cci_bits(v, 'byte')
+    room = R.data_capacity_bits(v, lvl)
+    for e in encs:
+        room -= 4 + cci + (12 if (eci and e not in (None, 'iso-8859-1')) else 0)
+    total = max(k, room // 8 + draw(st.integers(-2, 2)))
+    parts = []
+    for i, e in enumerate(encs):
+        n = total - (k - 1 - i) if i == k - 1 else draw(st.integers(1, max(1, total - (k - 1 - i))))
+        n = max(1, min(n, total - (k - 1 - i)))
+        total -= n
+        txt = draw(st.text(alphabet='abcxyz019 ,;', min_size=n, max_size=n))
+        parts.append((txt, draw(st.sampled_from([None, MODE_CONST['byte']])), e) if e else txt)
+    kw = {'eci': eci, 'error': lvl, 'boost_error': draw(st.booleans())}
+    if draw(st.integers(0, 2)) == 0:
+        kw['version'] = v
+    if draw(st.booleans()):
+        kw['mask'] = draw(st.integers(0, 7))
+    return {'fn': draw(st.sampled_from(['make', 'make_qr'])), 'content': enc_content(parts), 'kw': kw}
+
+
 def make_cases(big=0.06, multi=True):
     opts = [constructive_single(big=big)] * 6 + [free_single()] * 3 + [eci_case()]
+    if multi:
+        opts += [eci_multi_case()]
     if multi:
         opts += [multi_part()] * 2
     return st.one_of(*opts)
